@@ -237,7 +237,9 @@ def main(argv=None):
              len(violations), len(known_hits), len(unconfirmed), len(inconclusive), len(mismatches), len(errors), wall))
     if violations:
         return 1
-    if errors and len(errors) == len(ids):
+    if errors:
+        # an obligation whose harness crashed was not explored: the run cannot vouch for the property (infrastructure, not a verdict)
+        print("HARNESS-ERROR property=%s %d of %d obligations crashed in the harness: the run is not evidence" % (prop, len(errors), len(ids)))
         return 2
     # vacuity guard: a run in which most obligations could not be decided says nothing (engine or harness broken)
     undecided = {i for i, _m in inconclusive} | {i for i, _e in errors} | {i for i, _c in unconfirmed}
